@@ -61,6 +61,7 @@ type T struct {
 	Key    *T  // map key
 	Fields []F // struct
 	Named  string
+	GoName string // Go type name reported by reflect ("" for run-time built types)
 
 	once sync.Once
 	rt   reflect.Type
